@@ -1254,6 +1254,34 @@ func mergeLocks(a, b []string) []string {
 	return out
 }
 
+// the condition of the if statement of (*Conn).Close whose body is just "return c.conn.Close()" ("?" when there is
+// no such statement, all of them joined by " || " when there are several)
+func closeShortcutCond(an *concAn) string {
+	f := an.funcs["(*"+gmsmPath+"gmtls.Conn).Close"]
+	if f == nil || f.decl.Body == nil {
+		return "?"
+	}
+	var conds []string
+	ast.Inspect(f.decl.Body, func(n ast.Node) bool {
+		is, ok := n.(*ast.IfStmt)
+		if !ok || is.Init != nil || len(is.Body.List) != 1 {
+			return true
+		}
+		ret, ok := is.Body.List[0].(*ast.ReturnStmt)
+		if !ok || len(ret.Results) != 1 {
+			return true
+		}
+		if call, ok := ret.Results[0].(*ast.CallExpr); ok && types.ExprString(call.Fun) == "c.conn.Close" && len(call.Args) == 0 {
+			conds = append(conds, types.ExprString(is.Cond))
+		}
+		return true
+	})
+	if len(conds) == 0 {
+		return "?"
+	}
+	return strings.Join(conds, " || ")
+}
+
 func entryName(f *cFunc) (string, bool) {
 	fd := f.decl
 	if !fd.Name.IsExported() {
@@ -1354,6 +1382,9 @@ func init() {
 		strList("gen_unattributed", unattr)
 		b.WriteString("(* functions deliberately left out of the analysis (outside the model) although reachable *)\n")
 		strList("gen_excluded", excluded)
+		b.WriteString("(* Conn.Close: the condition under which it returns c.conn.Close() at once, without close_notify (and so\n" +
+			"   without waiting for c.out, which a Write in flight holds): the activeCall interlock of Conc/ActiveCall.v *)\n")
+		fmt.Fprintf(&b, "Definition gen_close_shortcut_cond : string := %q.\n\n", closeShortcutCond(an))
 		b.WriteString("(* lock order: (held, taken) for every Lock / RLock / Once.Do reachable from an entry point while another lock\n" +
 			"   or Once is held, by the function itself or by its callers on the call path *)\n")
 		{
